@@ -13,6 +13,10 @@ import (
 	"google.golang.org/protobuf/proto"
 )
 
+// aesGcmNonceSize is the size of the nonce the aead wrapper prepends to its
+// ciphertexts
+const aesGcmNonceSize = 12
+
 // X25519KeyProducer is an interface that can be satisfied by an underlying type
 // that produces an encryption key via X25519, along with a key identifier used
 // for AAD and embedding in the wrapping data. If the ID is empty, it is simply
@@ -144,6 +148,12 @@ func decryptWithKey(ctx context.Context, keyId string, ct []byte, sharedKey []by
 	blobInfo := new(wrapping.BlobInfo)
 	if err := proto.Unmarshal(ct, blobInfo); err != nil {
 		return fmt.Errorf("(%s) error unmarshaling incoming blob info: %w", op, err)
+	}
+
+	// The aead wrapper slices the nonce off the front of the ciphertext without
+	// checking its length, so reject anything that cannot contain one
+	if len(blobInfo.Ciphertext) < aesGcmNonceSize {
+		return fmt.Errorf("(%s) ciphertext in blob info is too short", op)
 	}
 
 	var aadOpt wrapping.Option
